@@ -386,6 +386,7 @@ type DReply struct {
 	Acc    string      `json:"acc"` // ok | stale | other | key | absent | swap | ows | trunc | empty
 	BLen   int         `json:"blen"`
 	CL     bool        `json:"cl"`    // send Content-Length
+	CLStr  string      `json:"clstr"` // CL: the declared value, verbatim (""  = the body length BLen); the server closes after the body
 	Ext    string      `json:"ext"`   // raw Sec-WebSocket-Extensions value ("" = absent)
 	Sub    string      `json:"sub"`   // Sec-WebSocket-Protocol value ("" = absent)
 	Sep    string      `json:"sep"`   // token separator used when rendering lists
@@ -901,7 +902,9 @@ func serveGet(run *dialRun, ci int, c net.Conn, br *bufio.Reader, pc *peerCfg, d
 			fmt.Fprintf(&sb, "%s: %s\r\n", kv[0], kv[1])
 		}
 		fmt.Fprintf(&sb, "X-Verif-Id: %s\r\n", pc.marker)
-		if rp.CL {
+		if rp.CL && rp.CLStr != "" {
+			fmt.Fprintf(&sb, "Content-Length: %s\r\n", rp.CLStr)
+		} else if rp.CL {
 			fmt.Fprintf(&sb, "Content-Length: %d\r\n", rp.BLen)
 		}
 		sb.WriteString("\r\n")
@@ -932,7 +935,7 @@ func serveGet(run *dialRun, ci int, c net.Conn, br *bufio.Reader, pc *peerCfg, d
 			break
 		}
 	}
-	if rp.Mode == "raw" || (rp.Mode == "std" && (rp.BLen > 0 || !rp.CL) && rp.Status != 101) {
+	if rp.Mode == "raw" || (rp.Mode == "std" && (rp.BLen > 0 || !rp.CL || rp.CLStr != "") && rp.Status != 101) {
 		// a server that has said everything closes (ends bodies delimited by EOF)
 		c.Close()
 		return
